@@ -38,7 +38,20 @@ func goReplayRace(r *Report, pkgRel, testFile, testName, fn string) (string, boo
 
 var raceReplay bool
 
+// lastGoReplay remembers the most recent test invocation so that it can be stored in the replay file and
+// re-run later with "./check --replay <file>".
+var lastGoReplay *ReplayInvocation
+
+type ReplayInvocation struct {
+	Pkg    string            `json:"pkg"`
+	File   string            `json:"test_file"`
+	Test   string            `json:"test"`
+	Inputs map[string]string `json:"inputs"`
+	Race   bool              `json:"race,omitempty"`
+}
+
 func goReplay(r *Report, pkgRel, testFile, testName string, inputs map[string]string) (string, bool) {
+	lastGoReplay = &ReplayInvocation{Pkg: pkgRel, File: testFile, Test: testName, Inputs: inputs, Race: raceReplay}
 	tmp, err := os.MkdirTemp("", "verif-replay-")
 	if err != nil {
 		return err.Error(), false
